@@ -58,6 +58,7 @@ type Exec struct {
 	topMods []*Ptr
 	topStar bool
 	ghostSorts map[string]string
+	ghostIdx map[string]string
 	entryAlloc Term
 	topCt *Contract
 	nepoch int
@@ -79,7 +80,7 @@ type Exec struct {
 
 func newExec(w *World, cs *ContractSet, fnKey string, props []string) *Exec {
 	m := newSMT()
-	return &Exec{w: w, cs: cs, smt: m, ti: newTypeInfo(m), fnKey: fnKey, props: props, ghostSorts: map[string]string{}, recDefs: map[string]bool{}, recBuilding: map[string]bool{}, oblNames: map[string]int{}, trustSeen: map[string]bool{}, recFns: map[string]bool{}}
+	return &Exec{w: w, cs: cs, smt: m, ti: newTypeInfo(m), fnKey: fnKey, props: props, ghostSorts: map[string]string{}, ghostIdx: map[string]string{}, recDefs: map[string]bool{}, recBuilding: map[string]bool{}, oblNames: map[string]int{}, trustSeen: map[string]bool{}, recFns: map[string]bool{}}
 }
 
 func (e *Exec) unsupported(format string, a ...interface{}) {
@@ -176,10 +177,8 @@ func (e *Exec) pos(p token.Pos) string {
 // heap access
 
 func (e *Exec) heapComp(st *State, name, idxSort, elemSort string) Term {
-	if st.oldMode > 0 {
-		if o := e.curOld(); o != nil && o != st {
-			return e.heapComp(o, name, idxSort, elemSort)
-		}
+	if st.oldMode > 0 && st.oldView != nil {
+		return e.heapComp(st.oldView, name, idxSort, elemSort)
 	}
 	if t, ok := st.heap[name]; ok {
 		return t
@@ -197,6 +196,11 @@ func (e *Exec) heapComp(st *State, name, idxSort, elemSort string) Term {
 }
 
 func (e *Exec) setHeap(st *State, name string, t Term) {
+	if st.oldMode > 0 && st.oldView != nil {
+		// allocation / initialisation inside old(e) (e.g. the argument array of a variadic call)
+		st.oldView.heap[name] = t
+		return
+	}
 	if e.quant == 0 {
 		t = e.smt.define("h."+name, t)
 	}
